@@ -34,6 +34,7 @@ def check(ck):
                     'at-most-once for appends')
     r18_1(ck)
     r18_2(ck)
+    r18_3(ck)
 
 
 def tainted_names(f):
@@ -286,3 +287,84 @@ def r18_2(ck):
     ck.require(ok, 'R18.2', p, p.node.name,
                'the path timeseries is the flattened embedded timeseries '
                'plus the same time vector', None)
+
+
+def r18_3(ck):
+    ck.rule('R18.3', 'the views are recomputed from the data on every call '
+            'and the paths are the keys: the query / timeseries functions '
+            'and emitter getters keep no state (no attribute or module-level '
+            'writes), and get_path_list_from_dict uses each dictionary key '
+            'as ONE path element')
+    mod_e = ck.repo.module('core.emitter')
+    mod_d = ck.repo.module('library.dict_utils')
+    n = 0
+    targets = [ck.fn(q, m) for q, m in SCOPE]
+    for cname in ('Emitter', 'RAMEmitter', 'SharedRamEmitter'):
+        ci = ck.repo.cls(cname, required=False)
+        if ci is None:
+            continue
+        for key, m in ci.methods.items():
+            if m.name.startswith('get_'):
+                targets.append(m)
+    for f in targets:
+        n += 1
+        ck.functions.add(f.fq)
+        mod = ck.repo.modules[f.module]
+        bad = []
+        for s2 in ast.walk(f.node):
+            if isinstance(s2, (ast.Global, ast.Nonlocal)):
+                bad.append(s2)
+            if isinstance(s2, (ast.Assign, ast.AugAssign, ast.AnnAssign)):
+                for t in A.assigned_targets(s2):
+                    if isinstance(t, ast.Attribute) and A.is_name(
+                            t.value, 'self'):
+                        bad.append(s2)
+                    if isinstance(t, ast.Subscript):
+                        ch = A.attr_chain(t.value) if not isinstance(
+                            t.value, ast.Name) else [t.value.id]
+                        if ch and (ch[0] in mod.assigns or (
+                                ch[0] == 'self' and len(ch) >= 2)):
+                            bad.append(s2)
+            if isinstance(s2, ast.Call) and isinstance(
+                    s2.func, ast.Attribute) and s2.func.attr in (
+                    'setdefault', 'update', 'append', 'add') and isinstance(
+                    s2.func.value, ast.Name) and s2.func.value.id in \
+                    mod.assigns:
+                bad.append(s2)
+        ck.require(not bad, 'R18.3', f, bad[0] if bad else f.node.name,
+                   'no state is kept between calls',
+                   '%s stores state outside its arguments (%s): a cached '
+                   'answer goes stale when more data is emitted, or leaks '
+                   'from one history to the next' % (
+                       f.qual, A.short(bad[0], 50) if bad else ''),
+                   bad[0] if bad else None)
+    ck.floor('R18.3', n, 10, 'query / view functions')
+    g = ck.fn('get_path_list_from_dict', 'library.dict_utils')
+    lp = [l for l in A.walk_no_nested(g.node) if isinstance(l, ast.For)
+          and '.items()' in A.unparse(l.iter)]
+    ok = bool(lp)
+    if ok:
+        key = A.unparse(lp[0].target.elts[0])
+        for s2 in A.walk_no_nested(g.node):
+            if isinstance(s2, ast.Assign) and A.is_name(
+                    s2.targets[0], 'path'):
+                v = s2.value
+                head = v.left if isinstance(v, ast.BinOp) else v
+                good = isinstance(head, ast.Tuple) and len(
+                    head.elts) == 1 and A.unparse(head.elts[0]) == key
+                ck.require(good, 'R18.3', g, s2,
+                           'a path starts with the key as one element: '
+                           '(key,)',
+                           'a path is built as %s: a key that is itself a '
+                           'tuple (a variable with units) is spliced into '
+                           'the path and the value can no longer be found'
+                           % A.unparse(v), s2)
+        spl = [c for c in A.calls_in(g.node, 'isinstance')
+               if key in A.names_in(c)]
+        ck.require(not spl, 'R18.3', g, spl[0] if spl else g.node.name,
+                   'keys are not inspected (every key is one path element)',
+                   'get_path_list_from_dict treats some keys specially (%s)'
+                   % (A.unparse(spl[0]) if spl else ''),
+                   spl[0] if spl else None)
+    ck.require(ok, 'R18.3', g, g.node.name,
+               'the dictionary is walked item by item', None)
